@@ -88,6 +88,19 @@ func (t *tree) doRemove(
 		} else {
 			child = &n.Left
 		}
+
+		// Make sure that both subtrees are available before anything is modified. Once
+		// the recursive removal has succeeded this call should not fail anymore, as the
+		// key would be gone below a node that was never marked dirty. The children are
+		// dereferenced again below, which does not need to fetch anything unless they
+		// were evicted in between.
+		if _, err = t.cache.derefNodePtr(ctx, n.Left, t.newFetcherSyncGet(key, true)); err != nil {
+			return nil, false, nil, err
+		}
+		if _, err = t.cache.derefNodePtr(ctx, n.Right, t.newFetcherSyncGet(key, true)); err != nil {
+			return nil, false, nil, err
+		}
+
 		newChild, changed, existing, err := t.doRemove(ctx, *child, bitLength, key)
 		if err != nil {
 			// NOTE: The child must be left as it is, a failed removal must not cut off the subtree.
